@@ -655,6 +655,18 @@ def check_vcf(text, ds, basis, T, col, found, depths_are_oracle):
         tot = d.sum(axis=1)
         if (tot == 0).any():
             col.count("positions_zero_coverage_sample_skipped")
+            # the listing thresholds are not decided here (the statement does not say whether a sample without a single base
+            # call counts in the MEAN), but the ORDER of the ALT alleles is the same under either reading - the divisor is common
+            # to all alleles of the position - so it is decided: by decreasing sum of the covered samples' frequencies
+            if rec is not None and alleles is not None and len(alleles) >= 3 and (tot > 0).any():
+                score = {a: sum(Fraction(int(d[si, a]), int(tot[si])) for si in range(S) if tot[si] > 0) for a in alleles[1:]}
+                alts = alleles[1:]
+                col.count("alt_order_checked_with_uncovered_sample")
+                for i in range(len(alts)):
+                    for j in range(i + 1, len(alts)):
+                        if score[alts[j]] > score[alts[i]] + Fraction(TOL):
+                            found.append(("alt-order-not-by-frequency", "%s: ALT %s: over the samples with coverage %s has summed frequency %.6f but the later %s has %.6f (a sample has no base call here; depths %s)" % (
+                                where, ",".join(rec.alts), BASES[alts[i]], float(score[alts[i]]), BASES[alts[j]], float(score[alts[j]]), d.tolist())))
             continue
         sts, means, sums = classify_position(d, T, col)
         if "amb" in sts:
